@@ -3,6 +3,7 @@ package main
 // govc check <property> [--tier quick|thorough]: the registered check command.
 
 import (
+	"context"
 	"encoding/json"
 	"fmt"
 	"os"
@@ -69,6 +70,7 @@ type OblResult struct {
 }
 
 type Report struct {
+	Covers     int
 	Prop       string
 	Tier       string
 	Seed       int
@@ -332,6 +334,20 @@ func runUnit(P *Program, rep *Report, c *Contract, fn *ssa.Function, id string, 
 			rep.mu.Unlock()
 		}
 	}
+	// vacuity: every return statement of a function under an explicit contract must be reachable
+	// under the assumptions made on the way (contracts of callees, invariants); an unreachable return
+	// means contradictory assumptions and would make every obligation behind it pass trivially
+	if !c.FromTemplate {
+		dead := e.coverReturns(cfg)
+		rep.mu.Lock()
+		rep.Covers += e.ncover
+		for _, d := range dead {
+			if !allowedDead(id, shortFn(fn)+" "+d) {
+				rep.Broken = append(rep.Broken, shortFn(fn)+": no satisfiable path reaches the return at "+d+" (contradictory assumptions?)")
+			}
+		}
+		rep.mu.Unlock()
+	}
 	// select obligations of this property; split known findings
 	var mine []*Obl
 	var derived []*Obl
@@ -405,6 +421,70 @@ func runUnit(P *Program, rep *Report, c *Contract, fn *ssa.Function, id string, 
 		r.Known = knownOf[o.Name]
 		rep.add(r)
 	}
+}
+
+// coverReturns checks that each return site has a satisfiable path; returns the dead sites.
+func (e *Engine) coverReturns(cfg SolverCfg) []string {
+	var dead []string
+	var keys []string
+	for k := range e.covers {
+		keys = append(keys, k)
+	}
+	sort.Strings(keys)
+	if len(keys) > 8 { // evenly spaced sample of the return sites
+		var sm []string
+		for i := 0; i < 8; i++ {
+			sm = append(sm, keys[i*len(keys)/8])
+		}
+		keys = sm
+	}
+	for _, k := range keys {
+		ok := false
+		// one query: the disjunction of (a sample of) the path conditions reaching this return
+		pcs := e.covers[k]
+		if len(pcs) > 24 {
+			var sm [][]string
+			for i := 0; i < 24; i++ {
+				sm = append(sm, pcs[i*len(pcs)/24])
+			}
+			pcs = sm
+		}
+		if os.Getenv("GOVC_COVERALL") != "" || (e.con != nil && e.con.Lemma) {
+			pcs = e.covers[k] // lemma functions have one return and mostly infeasible path pairs
+		}
+		var ds []string
+		for _, pc := range pcs {
+			ds = append(ds, and(pc...))
+		}
+		body := or(ds...)
+		q := "(set-option :timeout 4000)\n" + e.usedDecls(body+e.axiomText()) + e.axiomText() + "(assert " + body + ")\n(check-sat)\n"
+		ctx, cancel := context.WithTimeout(context.Background(), 20*time.Second)
+		solverSem <- struct{}{}
+		out, _ := runSolver(ctx, "z3-new", []string{"-in"}, q)
+		<-solverSem
+		cancel()
+		if fl := firstLine(out); fl != "unsat" {
+			ok = true
+		}
+		e.ncover++
+		if !ok {
+			dead = append(dead, k)
+		}
+	}
+	return dead
+}
+
+func allowedDead(id, key string) bool {
+	data, err := os.ReadFile(filepath.Join(verifDir(), "dead_returns.txt"))
+	if err != nil {
+		return false
+	}
+	for _, l := range strings.Split(string(data), "\n") {
+		if strings.TrimSpace(l) == key {
+			return true
+		}
+	}
+	return false
 }
 
 // coverEntry: is the entry path condition (after `requires`) satisfiable?
@@ -627,6 +707,7 @@ func writeEvidence(rep *Report, obligations, discharged int, backends map[string
 		"solver_seconds":               rep.SolverSecs,
 		"known_findings_still_present": kf,
 		"unproved_not_claimed":         rep.Unproved,
+		"cover_queries_reachable_returns": rep.Covers,
 		"integer_semantics":            "Go integers are fixed-width bit-vectors with wrap-around (no mathematical-integer abstraction); float64 is SMT Float64 RNE",
 		"notes":                        rep.Notes,
 	}
